@@ -7,6 +7,7 @@ package main
 //	instanceShootCondUnknownAtoms       atoms of that condition the translator does not know (must be none)
 //	instanceLoopEvents                  the calls that matter inside one iteration of the loop, in source order, with the
 //	                                    if / else structure around Shoot (logging, metrics and tag.Debug blocks are not events)
+//	maxOverdueNanos, waiterWaitStmts, waiterIsSlowDownStmts   coreutil.MaxOverdueDuration, (*Waiter).Wait / IsSlowDown
 //	discardedTag / discardedNet         netsample.DiscardedShootTag / DiscardedShootCodeError
 //	discardedSampleStmts                statements of netsample.DiscardedShootSample (canonical spelling)
 //	sampleAcquireStmts / phoutHandleStmts   netsample.Acquire, (*phoutAggregator).handle
@@ -39,6 +40,7 @@ import (
 const (
 	respguardPkgNetsample = "github.com/yandex/pandora/core/aggregator/netsample"
 	respguardPkgNetutil   = "github.com/yandex/pandora/lib/netutil"
+	respguardPkgCoreutil  = "github.com/yandex/pandora/core/coreutil"
 )
 
 func respguardConstString(p *packages.Package, name string) (string, bool) {
@@ -156,7 +158,7 @@ func respguardEvents(p *packages.Package, stmts []ast.Stmt, shootCond *ast.Expr)
 
 func respguardRound4Extra(t *tr) string {
 	var b strings.Builder
-	all := rgLoadAll(rgEngine, respguardPkgNetsample, respguardPkgNetutil, rgGunHTTP, rgGunScn)
+	all := rgLoadAll(rgEngine, respguardPkgNetsample, respguardPkgNetutil, respguardPkgCoreutil, rgGunHTTP, rgGunScn)
 	b.WriteString("/-! ## round 4: instance.Run against the clock, the DNS-caching dialer, sample ownership -/\n\n")
 
 	// ---------------------------------------------------------------- instance.Run: the loop
@@ -197,6 +199,20 @@ func respguardRound4Extra(t *tr) string {
 		b.WriteString("/-- the condition under which `instance.Run` takes the shot (else: the token is reported as discarded) -/\ndef instanceShootCond (discardOverflow isSlowDown : Bool) : Bool := " + expr + "\n\n")
 		b.WriteString("/-- atoms of that condition the translator does not know -/\ndef instanceShootCondUnknownAtoms : List String := " + leanStrList(unknown) + "\n\n")
 	}
+
+	// ---------------------------------------------------------------- coreutil: the waiter
+	cp := all[respguardPkgCoreutil]
+	maxOver := "0"
+	if c, ok := cp.Types.Scope().Lookup("MaxOverdueDuration").(*types.Const); ok {
+		if v, exact := constant.Int64Val(constant.ToInt(c.Val())); exact {
+			maxOver = strconv.FormatInt(v, 10)
+		}
+	} else {
+		t.errs = append(t.errs, "coreutil.MaxOverdueDuration not found")
+	}
+	b.WriteString("/-- `coreutil.MaxOverdueDuration` in nanoseconds -/\ndef maxOverdueNanos : Int := " + maxOver + "\n\n")
+	respguardCanonOf(t, &b, cp, rgFindMethod(cp, "Waiter", "Wait"), "waiterWaitStmts", "`(*Waiter).Wait` (model `waiterOverdue`)")
+	respguardCanonOf(t, &b, cp, rgFindMethod(cp, "Waiter", "IsSlowDown"), "waiterIsSlowDownStmts", "`(*Waiter).IsSlowDown` (model `isSlowDown`)")
 
 	// ---------------------------------------------------------------- netsample: the discarded sample
 	np := all[respguardPkgNetsample]
